@@ -120,6 +120,7 @@ BOUNDS = {
         "flags": {"cfgs": [0, 3]},
         "kwonly": {"sigs": 3, "flags": [list(N_), list(D_)]},
         "extra": {"spell_cfgs": [0, 1], "attr_len": 3},
+        "direct": "armed: 12 call shapes x 3 functions evaluated in the expression / an attribute of a call with content (plain, supports_caller, supports_caller reading caller); empty: 8 bodies (6 of them writing nothing) x 4 filter lists x up to 8 places; nscall: 6 shapes of an inline callable called with content x 4 call spellings x 3 bodies using caller; each Template rendered twice",
         "block_len": 3,
     },
     "thorough": {
@@ -128,6 +129,7 @@ BOUNDS = {
         "flags": {"cfgs": [0, 1, 2, 3]},
         "kwonly": {"sigs": 5, "flags": [list(N_), list(B_), list(F_), list(D_)]},
         "extra": {"spell_cfgs": [0, 1, 2, 3], "attr_len": 4},
+        "direct": "as quick",
         "block_len": 3,
     },
 }
@@ -729,12 +731,30 @@ def check_program(st, family, prog, nontrivial, extra=None):
 
 def plan(tier, seed):
     n = core.NPROC
-    jobs = []
+    jobs = [{"family": "direct", "tier": tier, "seed": seed, "shard": i, "nshards": 2} for i in range(2)]
     for fam in ("tree", "bind", "flags", "kwonly", "extra"):
         ns = n * 2 if fam == "tree" else n
         for i in range(ns):
             jobs.append({"family": fam, "tier": tier, "seed": seed, "shard": i, "nshards": ns})
     return jobs
+
+
+def check_direct(st, case, seed):
+    from mc import c05_direct
+
+    obs, _log = c05_direct.run(case, seed)
+    st.states += 1
+    st.traces += 1
+    st.transitions += 2
+    st.evaluations += 2
+    st.nontrivial += 1
+    st.oracles["direct:" + case["group"]] += 1
+    ok = obs == ("ok", case["exp"])
+    st.outcomes[("direct:" + case["group"], "ok" if ok else ("differs" if obs[0] == "ok" else obs[1]))] += 1
+    if not ok:
+        kind = case["name"].split(":")[1]
+        sig = "direct:%s:%s:%s" % (case["group"], kind, "output differs" if obs[0] == "ok" else "exception " + obs[1])
+        st.violation(sig, {"family": "direct", "name": case["name"], "seed": seed, "src": case["src"]}, "closed form (" + case["group"] + ")", expected=case["exp"], observed=list(obs))
 
 
 def run_job(job):
@@ -743,6 +763,19 @@ def run_job(job):
     fam, seed = job["family"], job["seed"]
     sh, ns = job["shard"], job["nshards"]
     n = 0
+    if fam == "direct":
+        from mc import c05_direct
+
+        for idx, case in enumerate(c05_direct.cases(seed)):
+            if idx % ns != sh:
+                continue
+            check_direct(st, case, seed)
+            n += 1
+            if n % 97 == 1:
+                st.sample({"family": "direct", "name": case["name"], "src": case["src"], "expected": case["exp"]})
+        st.extra["programs_direct"] = n
+        st.extra["cpu_s"] = round(time.process_time() - t0, 2)
+        return st
     for idx, item in enumerate(FAMILIES[fam](job["tier"], seed)):
         if idx % ns != sh:
             continue
@@ -769,6 +802,17 @@ def post(tier, seed, st):
 
 def replay(case):
     st = Stats()
+    if case.get("family") == "direct":
+        from mc import c05_direct
+
+        cs = [c for c in c05_direct.cases(case["seed"]) if c["name"] == case["name"] and c["src"] == case["src"]]
+        if not cs:
+            return None, "unknown direct case"
+        check_direct(st, cs[0], case["seed"])
+        if st.violations:
+            v = st.violations[0]
+            return False, "reproduced: sig=%s\n  src=%s\n  expected=%r\n  observed=%r" % (v["sig"], case.get("src"), v["expected"], v["observed"])
+        return True, "holds"
     extra = {k: case[k] for k in ("sig", "calldef") if k in case} or None
     check_program(st, case["family"], case["prog"], False, extra)
     if st.violations:
